@@ -266,7 +266,8 @@ def make_objective(b: Built, o, p):
     return obj
 
 
-def build(p, quiet=True, roundtrip=False, early_solver=None, two_phase=False, interleave=False, resolve=False) -> Built:
+def build(p, quiet=True, roundtrip=False, early_solver=None, two_phase=False, interleave=False, resolve=False,
+          later_problem=False) -> Built:
     """roundtrip=True: every task and plain worker is first created in a scratch problem, dumped with
     to_json() and re-created in the real problem with SchedulingProblem.add_from_json().
 
@@ -276,6 +277,9 @@ def build(p, quiet=True, roundtrip=False, early_solver=None, two_phase=False, in
     two_phase=True: the model is declared without the requirements / buffer accesses of the last task that has
         some, and without constraints, indicators and objectives; a first solver solves that part; the rest is
         declared afterwards (the caller then creates a NEW solver);
+    later_problem=True: ANOTHER, unrelated SchedulingProblem (other horizon, a task and a worker of its own) is created
+        after this model is complete and before its solver is created (make_solver does it): a solver works on the
+        problem it was given, not on the problem created last;
     resolve=True: the complete model is first solved by a solver of its own (thrown away); the caller then creates
         a NEW solver on the same problem;
     interleave=True: right after the first requirement on each plain worker, a resource constraint that cannot
@@ -404,6 +408,8 @@ def build(p, quiet=True, roundtrip=False, early_solver=None, two_phase=False, in
         b.cons.append(make_constraint(b, c))
     for o in p["objs"]:
         b.objs.append(make_objective(b, o, p))
+    b.later_problem = bool(later_problem)
+    b.later_horizon = p["H"] + 7
     if resolve:
         with silence():
             try:
@@ -424,6 +430,11 @@ def make_solver(b: Built, **kw):
     if getattr(b, "early_solver", None) is not None:
         s, b.early_solver = b.early_solver, None    # created before the model was declared (build(early_solver=...))
         return s
+    if getattr(b, "later_problem", False):
+        b.later_problem = False
+        other = ps.SchedulingProblem(name="LaterProblem", horizon=b.later_horizon)
+        t = ps.FixedDurationTask(name="LaterTask", duration=b.later_horizon)
+        t.add_required_resource(ps.Worker(name="LaterWorker"))
     with silence():
         s = ps.SchedulingSolver(problem=b.problem, **kw)
     return s
